@@ -176,11 +176,24 @@ def run(ctx, res):
         if str(fam).startswith("cli:"):
             from . import clilib
             return clilib.run_family(ctx, res, "cli:c09")
+        if str(fam).startswith("hc:"):
+            from . import hclib
+            with open(ctx["replay"]) as f:
+                rp = json.load(f)
+            stats = dict(evals=0, distinct=set(), kinds={}, samples=[], pending_at_close={})
+            c2 = dict(ctx, seed=int(rp.get("seed", ctx["seed"])))
+            return hclib.run_family(c2, res, rp["family"], int(rp["idx"]), int(rp["idx"]) + 1, stats, shards=1)
         return _run_pure(ctx, res)
     from . import clilib
     clilib.run_family(ctx, res, "cli:c09", n_quick=900, n_thorough=12000)
     ev2, dn2, extra2 = res.evaluations, res.distinct_nontrivial, dict(res.extra)
+    # ... and over the HTTP transport (a Client over jhttp.Channel against a Bridge): handler errors - context errors
+    # and coded errors included - reach the caller exactly as over a direct connection (family hc:bridge)
+    from . import hclib
+    stats = dict(evals=0, distinct=set(), kinds={}, samples=[], pending_at_close={})
+    hclib.run_family(ctx, res, "hc:bridge", 0, 8000 if ctx["tier"] == "thorough" else 600, stats)
     _run_pure(ctx, res)
-    res.evaluations += ev2
-    res.distinct_nontrivial += dn2
+    res.evaluations += ev2 + stats["evals"]
+    res.distinct_nontrivial += dn2 + len(stats["distinct"])
     res.extra["callback_direction"] = extra2
+    res.extra["http_transport_scenarios"] = stats["evals"]
